@@ -98,7 +98,8 @@ impl Scenario for C15Des {
         _ => Trig::RunIdle,
       });
     }
-    serde_json::to_value(Case { threads_flavour: rng.chance(1, 2), src, tail: rng.below(3), trigs }).unwrap()
+    // tail 3 = a short-circuiting take(1) below finalize
+    serde_json::to_value(Case { threads_flavour: rng.chance(1, 2), src, tail: rng.below(4), trigs }).unwrap()
   }
   fn run(&self, case: &Value) -> Result<Outcome, String> {
     let case: Case = serde_json::from_value(case.clone()).map_err(|e| e.to_string())?;
@@ -121,6 +122,7 @@ impl Scenario for C15Des {
       let u: BoxSubscription<'static> = match case.tail {
         0 => BoxSubscription::new(o.actual_subscribe(Probe(log.clone()))),
         1 => BoxSubscription::new(o.map(|v| v).actual_subscribe(Probe(log.clone()))),
+        3 => BoxSubscription::new(o.take(1).actual_subscribe(Probe(log.clone()))),
         _ => BoxSubscription::new(o.filter(|_| true).tap(|_| {}).actual_subscribe(Probe(log.clone()))),
       };
       let u = std::rc::Rc::new(std::cell::RefCell::new(Some(u)));
@@ -145,6 +147,7 @@ impl Scenario for C15Des {
       let u: BoxSubscriptionThreads = match case.tail {
         0 => BoxSubscriptionThreads::new(o.actual_subscribe(Probe(log.clone()))),
         1 => BoxSubscriptionThreads::new(o.map(|v| v).actual_subscribe(Probe(log.clone()))),
+        3 => BoxSubscriptionThreads::new(o.take(1).actual_subscribe(Probe(log.clone()))),
         _ => BoxSubscriptionThreads::new(o.filter(|_| true).tap(|_| {}).actual_subscribe(Probe(log.clone()))),
       };
       let u = std::rc::Rc::new(std::cell::RefCell::new(Some(u)));
@@ -162,7 +165,9 @@ impl Scenario for C15Des {
     // finalize upstream of take: whether the downstream's completion alone runs the
     // finalizer is outside the statement's quantifier; only "at most once before,
     // exactly once after unsubscribe" is judged there
-    let lenient_before_unsub = matches!(case.src, Src::IntervalTake(_));
+    // a hot source under a short-circuiting take: the downstream ends the stream, the
+    // subject then filters the finished subscriber, so only unsubscribe is left
+    let lenient_before_unsub = matches!(case.src, Src::IntervalTake(_)) || (case.tail == 3 && case.src == Src::Hot);
     let mut violation: Option<Violation> = None;
     let mut trace = format!("subscribe ");
     let mut repeats = 0u64;
@@ -220,7 +225,10 @@ impl Scenario for C15Des {
             (_, false) => local.clone().error(1),
             (_, true) => shr.clone().error(1),
           }
-          if matches!(case.src, Src::Hot) {
+          // below a take(1) that has already ended the stream the subject filters
+          // this (finished) subscriber: the terminal does not reach finalize any more
+          // and only unsubscribe is left as a trigger
+          if matches!(case.src, Src::Hot) && !(case.tail == 3 && n > 0) {
             triggered = true;
           }
           trace.push_str(if *t == Trig::Complete { "complete " } else { "error " });
